@@ -308,6 +308,47 @@ def run(ctx):
         if not refused or ids_ != list(range(n_ok)):
             viol("pdb|ragged-atom-count", ".pdb: %d models of 12 atoms written, then a model of 11 atoms was %s: the file loads as %s" % (n_ok, "refused" if refused else "accepted", ids_), dict(ext="pdb", accepted=n_ok))
 
+    # ---- (2c) a model the PDB writer cannot format (a coordinate beyond its columns) is refused as a whole; single frames given as 2-D
+    # arrays and atom types given as arrays are accepted by the text writers that document them
+    for k in range(ctx.n(3, 10)):
+        n_ok = rng.randrange(1, 4)
+        path = os.path.join(ctx.scratch, "big.pdb")
+        clean(path)
+        fh = PDBTrajectoryFile(path, "w")
+        for i in range(n_ok):
+            fh.write(src.t.xyz[i] * 10, src.t.topology, modelIndex=i)
+        bad = (src.t.xyz[n_ok] * 10).copy(); bad[rng.randrange(2, 12), rng.randrange(3)] = 1e9
+        refused = False
+        try:
+            fh.write(bad, src.t.topology, modelIndex=n_ok)
+        except ValueError:
+            refused = True
+        fh.write(src.t.xyz[n_ok] * 10, src.t.topology, modelIndex=n_ok)
+        fh.close()
+        ctx.case(None, ("pdb-unwritable-model", k)); ctx.count("refused models: pdb")
+        try:
+            ids_ = tf.frame_ids(md.load(path).xyz, 1.0)
+        except Exception as e:  # noqa: BLE001
+            ids_ = "unreadable (%s)" % type(e).__name__
+        if not refused or ids_ != list(range(n_ok + 1)):
+            viol("pdb|refused-model-leaves-lines", ".pdb: %d models written, a model with the coordinate 1e9 was %s, one more model written: the file loads as %s" % (n_ok, "refused" if refused else "accepted", ids_), dict(ext="pdb", accepted=n_ok))
+    for ext_ in ("xyz", "lammpstrj"):
+        path = os.path.join(ctx.scratch, "one." + ext_)
+        clean(path)
+        ctx.case(None, ("single-frame-2d", ext_)); ctx.count("single frames as 2-D arrays: " + ext_)
+        try:
+            f = md.open(path, "w")
+            kw = dict(cell_lengths=src.t.unitcell_lengths[:1] * 10, cell_angles=src.t.unitcell_angles[:1]) if ext_ == "lammpstrj" else {}
+            f.write(src.t.xyz[0] * 10, **kw)                                              # one frame, shape (n_atoms, 3)
+            kw = dict(cell_lengths=src.t.unitcell_lengths[1:3] * 10, cell_angles=src.t.unitcell_angles[1:3]) if ext_ == "lammpstrj" else {}
+            f.write(src.t.xyz[1:3] * 10, types=np.array(["C"] * 12) if ext_ == "xyz" else np.arange(1, 13), **kw)   # types as the documented ndarray
+            f.close()
+            ids_ = tf.frame_ids(load(md, ext_, path, top).xyz, 1.0)
+        except Exception as e:  # noqa: BLE001
+            ids_ = "%s: %s" % (type(e).__name__, str(e)[:80])
+        if ids_ != [0, 1, 2]:
+            viol("%s|single-frame-2d-or-types-array" % ext_, ".%s: write(one frame as a 2-D array) then write(two frames, types=<ndarray>) gives %s" % (ext_, ids_), dict(ext=ext_))
+
     # ---- (3) kill experiments
     for ext in sorted(HAS_FLUSH | {"dcd"}):                       # the four formats the property names for live simulation output
         for mode in ("exit", "kill"):
